@@ -67,7 +67,7 @@ PROPS = {
              "3 observers per dispatcher; RemoveObserver with 3 observers", "more than 3 observers per event type; observer order",
              ["doc_pred is the rule of docs/content/events (all observed components affected together; With/Without against the entity composition)"]),
     "C15": P("Shrink from both shapes (capacity 2, emptied relation tables): model, INV (incl. relation indices) unchanged, reports no remaining work (clock assumed < 1h per call); capPow2, CanShrink/Shrink target and Extend growth arithmetic for ALL uint32 len/cap/minCapacity up to 2^31", "same", "capacities above 2^31 (uint32 overflow of capPow2)"),
-    "C16": P("observerManager.Reset from an arbitrary I-obs state with 1 (quick) or 2 observers, for EVERY event type 0..255", "same plus 2 observers", "see DESIGN"),
+    "C16": P("World.Reset from both shapes holding registered filters (with relation target), an observer (3 event types incl. 255), a resource and a used stats object: FRESH post-state (no handle alive, pool/index empty, all tables empty, relation tables free exactly once, indices empty, cache/observers/resources empty, unlocked, INV), nothing fires afterwards, re-registration works; then (optional Shrink and) a new population of 8 entities incl. 3 relation targets and one further operation satisfy the C01 model checks; observerManager.Reset from an arbitrary I-obs state with 1 (quick) or 2 observers, for EVERY event type 0..255", "same plus 2 observers", "see DESIGN"),
     "C17": P("MarshalBinary/AppendBinary/UnmarshalBinary for all 2^64 handles; inputs of every length 0..12 except 8 rejected with the entity unchanged (real encoding/binary SSA executed)", "same", "JSON codec (encoding/json not modelled); inputs longer than 12 bytes"),
     "C18": P("registry step (known id stable, new id = count, overflow panics without consuming, unregisterLast) for counts 0..2 and max-2..max; toTypes for counts 0..3 and {64,65,255,256} with masks {lowest, one symbolic position, highest}; locked registration; Resources as a map for all id pairs",
              "toTypes additionally at counts 63,127,128,129,191,192,193", "masks with more than 3 set bits in toTypes (popcount concretisation)"),
